@@ -62,6 +62,9 @@ pub enum Payload {
     Probe { sub: u8, synthetic: bool },
     /// executor output
     Out { task: TaskId, val: u8 },
+    /// StreamSource item / end of stream
+    Item(u8),
+    StreamEnd,
     /// event of child `child` of a composite source
     Child { child: u8, inner: Box<Payload> },
 }
@@ -91,6 +94,8 @@ pub enum ROp {
     Schedule { src: SrcId, task: TaskId, #[serde(default)] pendings: u8, #[serde(default)] self_wake: bool, #[serde(default)] val: u8 },
     Wake { task: TaskId },
     DropScheduler { src: SrcId },
+    StreamPush { src: SrcId, val: u8 },
+    StreamEnd { src: SrcId },
     InsertIdle { idle: IdleId },
     CancelIdle { idle: IdleId },
     DropIdleHandle { idle: IdleId },
@@ -155,6 +160,8 @@ pub enum Ev {
     Poll { task: TaskId, thread_ok: bool },
     PollEnd { task: TaskId, ready: bool },
     FutDrop { task: TaskId, thread_ok: bool },
+    /// the stream of a StreamSource was polled
+    StreamPoll { src: SrcId },
     SrcDrop { src: SrcId },
     CbDrop { src: SrcId },
     IdleDrop { idle: IdleId },
